@@ -8,7 +8,7 @@
     back the very lexer it was given; every later sibling is run with the context value the
     sequence was given; the derived contexts (raw, unrecoverable) are seen by the wrapped parser
     only. *)
-From Tephra Require Import CLexer Run RunScope.
+From Tephra Require Import CLexer Run RunScope RunFrame.
 
 Theorem C09_filter_with_restores :
   forall f fs a lx c st v lx' st',
@@ -61,6 +61,15 @@ Theorem C09_wrapper_contexts :
         run (S f) (GMaybe a) lx c st = (ROk (VSome v) lx', st')).
 Proof. exact wrapper_contexts. Qed.
 Print Assumptions C09_wrapper_contexts.
+
+
+(** the whole model: whatever a grammar does - change the filter for a wrapped parser, recover, scan
+    brackets, loop - a successful run returns a lexer with the filter the run was given; for every grammar,
+    lexer (no invariant), context, store and fuel *)
+Theorem C09_filter_frame_whole_model :
+  forall fuel g lx c st v lx' st', run fuel g lx c st = (ROk v lx', st') -> c_filter lx' = c_filter lx.
+Proof. exact filter_after_success. Qed.
+Print Assumptions C09_filter_frame_whole_model.
 
 (** concrete: a failing raw(one b) absorbed by maybe, then a probe: the probe's error reaches the
     sink through the pushed transform 7, exactly as without the wrapper *)
